@@ -124,7 +124,7 @@ pub fn cmd_ser(args: &[String]) -> i32 {
                         }
                     }
                 }
-                "record" => {
+                "record" | "unsupported_record" => {
                     let msgs_json = v["msgs"].as_array().cloned().unwrap_or_default();
                     let stores: Vec<Store> = msgs_json.iter().map(store_for_msg).collect();
                     let msgs: Vec<TlsMessage> = msgs_json.iter().zip(stores.iter()).map(|(m, s)| msg_of(m, s)).collect();
